@@ -1,6 +1,6 @@
 """C19 — dispatch block objects: cancel, wait and notify follow the execution."""
 import os, re
-from common import sh
+from common import sh, run_lines
 from tracecheck import run_traces
 from props.C03 import replay
 
@@ -18,7 +18,7 @@ META = {
     "technique": "Lean 4 proof (thread-modular invariant with ghost thread lists) + replay of real atomic traces through the model's step + history oracle",
 }
 
-THEOREMS = ["C19.leave_exactly_once", "C19.cancel_semantics", "C19.wait_notify_follow_execution", "C19.group_notify_not_early"]
+THEOREMS = ["C19.leave_exactly_once", "C19.cancel_semantics", "C19.wait_notify_follow_execution", "C19.group_notify_not_early", "C19.first_completion_only_any_count", "C19.F40_as_found"]
 
 
 def run(ctx):
@@ -41,6 +41,28 @@ def run(ctx):
         for p in paths:
             try: os.remove(p)
             except OSError: pass
+    # the execution counter word: one block object executed a few times, the word optionally set (through the hook) to a value in
+    # [2, 2^31) - what that many executions would have left there had every one been counted - and executed again; the word and the
+    # leaves of the private group compared with BlockCnt.run (L-fn)
+    if drv:
+        h = ctx.harness("lfn")
+        r = ctx.rng.fork("c19cnt")
+        lines = ["BPW %d - %d" % (a, b) for a in range(4) for b in range(4)]
+        for _ in range(60 if ctx.thorough else 24):
+            lines.append("BPW %d %d %d" % (r.below(4), r.choice([2, 3, 1000, 65535, 2 ** 31 - 3, 2 ** 31 - 2, 2 ** 31 - 1, 2 + r.below(2 ** 31 - 2)]), r.below(5)))
+        real, _, _ = run_lines(h, lines, timeout=300)
+        model, _, _ = run_lines(drv, lines)
+        diffs = ctx.diff_streams("L-fn block execution counter", lines, real, model)
+        if diffs:
+            # failing input: the history the differences add up to - one completion (the group is left), then the word as 2^32 - 2
+            # further counted completions leave it, then three more executions
+            probe, _, _ = run_lines(h, ["BPW 1 4294967294 3"], timeout=60)
+            if probe[:1] == ["crash"]:
+                ctx.violation("a block object executed 2^32 + 1 times leaves its private group a second time (trap: unbalanced dispatch_group_leave): every completion increments the 32-bit "
+                              "counter (e.g. `%s`: real `%s`, counter stops at 2 in the model), and with the counter at 2^32 - 2 after the first completion three more executions trap" % (diffs[0][0], diffs[0][1]),
+                              {"line": "BPW 1 4294967294 3", "expected": "crash is the violation; harness/c19_wrap runs the 2^32 + 2 executions without the hook", "real": probe[0]}, signature="block:counter-wrap")
+    if ctx.thorough:
+        run_traces(ctx, "c19_wrap", [[2]], None, None, "L-api 2^32 + 2 executions of one block object", "wrap", timeout=900)
     # dispatch_block_wait (zero timeout, finite timeout) racing with the submission of the block object itself, through every submission API
     wr = [[ctx.seed * 10 + i, 120 if ctx.thorough else 20] for i in range(4 if ctx.thorough else 2)]
     run_traces(ctx, "c19_waitrace", wr, None, None, "L-api wait racing with submission", "waitrace", timeout=400)
